@@ -212,14 +212,14 @@ Eval vm_compute in (map fst R1).
 
 def de_theorem_instances(res, items):
     """C02_members_are_accepted evaluated on corpus cases.  items: (query index, json text).  Coq computes R2 = the largest
-    sub-environment of the corpus inside the theorem's hypotheses (plain_envb && de_envb), and for each case one of
+    sub-environment of the corpus inside the theorem's hypotheses (de_envb), and for each case one of
     0 = outside the hypotheses (type not closed over R2, a long array, duplicate keys), 1 = a member that is not rejected,
     2 = a member that IS rejected (would contradict the theorem), 3 = not a member.  Returns (hypotheses hold of R2, |R2|, codes)."""
     qs = res["queries"]
     cases = coq_list(["(%s, %s)" % (C.coq_ty(qs[qi]), coq_json(parse_json(text))) for qi, text in items], sep=";\n ")
     body = ("From TsRs Require Import Corr.%s Spec.Serde Spec.SerdeDe Proofs.Sem_derive_proofs Proofs.De_proofs.\n" % res["envname"] + CR.HEADER + SEM_HEADER + """
 Definition shrink2 (R' : env) : env :=
-  filter (fun p => plain_defb R' (snd p) && ddef_okb is_upper (snd p) && is_ok (decl_of is_upper is_alnum is_numeric R' fuel (snd p))) R'.
+  filter (fun p => def_okb is_upper R' (snd p) && is_ok (decl_of is_upper is_alnum is_numeric R' fuel (snd p))) R'.
 Fixpoint dedup (seen : list str) (R' : env) : env :=
   match R' with
   | [] => []
@@ -236,7 +236,7 @@ Definition inst (R2 : env) (E2 : denv) (c : rty * json) : N :=
 Eval vm_compute in
   (let R2 := shrink2 (shrink2 (shrink2 (shrink2 (shrink2 (shrink2 (dedup [] R)))))) in
    let E2 := env_of is_upper is_alnum is_numeric R2 fuel in
-   (if plain_envb is_upper is_alnum is_numeric R2 fuel && de_envb is_upper R2 then 1%%N else 0%%N, N.of_nat (length R2),
+   (if de_envb is_upper is_alnum is_numeric R2 fuel then 1%%N else 0%%N, N.of_nat (length R2),
     map (inst R2 E2) %s)).
 """ % cases)
     ok, out = vlib.coq_eval("%s_c02thm" % res["envname"], body, timeout=1800)
